@@ -165,9 +165,16 @@ class BasicDBusProtocol(protocol.Protocol):
                     )
                     self._unix_creds = struct.unpack('3i', cd)
 
-            lines = (self._buffer + data).split(self.authDelimiter)
-            self._buffer = lines.pop(-1)
-            for line in lines:
+            self._buffer = self._buffer + data
+
+            # Lines are taken from the buffer one at a time: once a line
+            # completes the authentication, everything that follows it in
+            # the same read is binary message data (which may well contain
+            # the line delimiter) and must be left in the buffer untouched
+            while not self._authenticated:
+                idx = self._buffer.find(self.authDelimiter)
+                if idx < 0:
+                    break
                 if self.transport.disconnecting:
                     # this is necessary because the transport may be
                     # told to lose the connection by a line within a
@@ -175,6 +182,8 @@ class BasicDBusProtocol(protocol.Protocol):
                     # all the lines in that packet following the one
                     # that told it to close.
                     return
+                line = self._buffer[:idx]
+                self._buffer = self._buffer[idx + len(self.authDelimiter):]
                 if len(line) > self.MAX_AUTH_LENGTH:
                     return self.authMessageLengthExceeded(line)
                 else:
@@ -184,14 +193,15 @@ class BasicDBusProtocol(protocol.Protocol):
                             self.guid = self._dbusAuth.getGUID()
                             self._dbusAuth = None
                             self.setAuthenticationSucceeded()
-                            if self._buffer:
-                                self.dataReceived(b'')
                     except error.DBusAuthenticationFailed as e:
                         log.msg('DBus Authentication failed: ' + str(e))
                         self.transport.loseConnection()
-            else:
-                if len(self._buffer) > self.MAX_AUTH_LENGTH:
-                    return self.authMessageLengthExceeded(self._buffer)
+
+            if self._authenticated:
+                if self._buffer:
+                    self.dataReceived(b'')
+            elif len(self._buffer) > self.MAX_AUTH_LENGTH:
+                return self.authMessageLengthExceeded(self._buffer)
 
     def fileDescriptorReceived(self, fd):
         self._receivedFDs.append(fd)
